@@ -144,9 +144,11 @@ HCPcnone_seek(accrec_t *access_rec, int32 offset, int origin)
 {
     compinfo_t *info; /* special element information */
 
+    (void)origin; /* HCPseek has turned the offset into an absolute one already */
+
     info = (compinfo_t *)access_rec->special_info;
 
-    if (Hseek(info->aid, offset, origin) == FAIL)
+    if (Hseek(info->aid, offset, DF_START) == FAIL)
         HRETURN_ERROR(DFE_CSEEK, FAIL);
 
     return SUCCEED;
